@@ -21,7 +21,7 @@ StOK(st) ==
                   /\ st.oc[g] = (opened[g] # 0 /\ ctx[g][opened[g]].closed)
                   /\ st.odb[g] = Live(g)
                   /\ st.kn[g] = (g \in known)
-                  /\ st.lst[g] = (IF opened[g] # 0 THEN msgs[g] ELSE -1)
+                  /\ st.lst[g] = (IF opened[g] # 0 THEN ctx[g][opened[g]].vm ELSE -1)
   /\ st.acct = (IF acct = 0 THEN "nil" ELSE IF acct = opened["A"] THEN "same" ELSE "other")
   /\ \A g \in {"C", "M"} : st.jn[g] = "?" \/ st.jn[g] = (IF g \in joined THEN "y" ELSE "n")
   \* the contact's state in the account group's index: request received (set-up) until it is accepted
@@ -36,7 +36,7 @@ StOKp(st) ==   \* the same on the state AFTER the step (st itself is a constant 
                   /\ st.oc[g] = (opened'[g] # 0 /\ ctx'[g][opened'[g]].closed)
                   /\ st.odb[g] = Live(g)'
                   /\ st.kn[g] = (g \in known')
-                  /\ st.lst[g] = (IF opened'[g] # 0 THEN msgs'[g] ELSE -1)
+                  /\ st.lst[g] = (IF opened'[g] # 0 THEN ctx'[g][opened'[g]].vm ELSE -1)
   /\ st.acct = (IF acct' = 0 THEN "nil" ELSE IF acct' = opened'["A"] THEN "same" ELSE "other")
   /\ \A g \in {"C", "M"} : st.jn[g] = "?" \/ st.jn[g] = (IF g \in joined' THEN "y" ELSE "n")
   /\ st.jn.cs = "?" \/ st.jn.cs = (IF "C" \in joined' THEN "A" ELSE "R")
@@ -77,7 +77,7 @@ TReset == /\ Here("reset") /\ Adv
           /\ known' = {"A"} /\ joined' = {}
           /\ opened' = [g \in G |-> IF g = "A" THEN 1 ELSE 0] /\ acct' = 1
           /\ odb' = [g \in G |-> IF g = "A" THEN 1 ELSE 0]
-          /\ ctx' = [g \in G |-> IF g = "A" THEN <<[closed |-> FALSE, na |-> 1]>> ELSE <<>>]
+          /\ ctx' = [g \in G |-> IF g = "A" THEN <<[closed |-> FALSE, na |-> 1, vm |-> 0, vd |-> 0]>> ELSE <<>>]
           /\ msgs' = [g \in G |-> 0] /\ meta' = [g \in G |-> 0] /\ svc' = "up" /\ strm' = NoStrm
           /\ pc' = [c \in Clients |-> Idle] /\ res' = [c \in Clients |-> [r |-> "-", n |-> -1]] /\ nreq' = 0
 
